@@ -54,28 +54,28 @@ type plan struct {
 }
 
 type world struct {
-	run      *vh.Run
-	label    string
-	r        *vh.RNG
-	c        *vh.Chain
-	mirror   *vh.Chain
-	eoas     []*vh.Acct
-	relayer  *vh.Acct // never stakes
-	bank     *vh.Acct // funder
-	deployer *vh.Acct
-	puppets  []*puppet
-	vals     []sdk.ValAddress
-	staking  common.Address
+	run         *vh.Run
+	label       string
+	r           *vh.RNG
+	c           *vh.Chain
+	mirror      *vh.Chain
+	eoas        []*vh.Acct
+	relayer     *vh.Acct // never stakes
+	bank        *vh.Acct // funder
+	deployer    *vh.Acct
+	puppets     []*puppet
+	vals        []sdk.ValAddress
+	staking     common.Address
 	minWithdraw *big.Int
-	used     map[common.Address]uint64 // next nonce/sequence per sender within the block being planned
-	stakeSrv stakingtypes.MsgServer
-	distSrv  distrtypes.MsgServer
-	stakeQ   stakingkeeper.Querier
-	distQ    distrkeeper.Querier
-	modules  map[common.Address]string
-	jailed   bool
-	diverged bool
-	ops      int
+	used        map[common.Address]uint64 // next nonce/sequence per sender within the block being planned
+	stakeSrv    stakingtypes.MsgServer
+	distSrv     distrtypes.MsgServer
+	stakeQ      stakingkeeper.Querier
+	distQ       distrkeeper.Querier
+	modules     map[common.Address]string
+	jailed      bool
+	diverged    bool
+	ops         int
 }
 
 var (
@@ -108,7 +108,9 @@ func newWorld(run *vh.Run, label string, wi int) *world {
 	for i := 0; i < 6; i++ {
 		a := vh.NewAcct(r)
 		w.eoas = append(w.eoas, a)
-		accts = append(accts, vh.GenAccount{Addr: a.Addr, Coins: vh.NativeCoins(5000)})
+		// a second denomination in the staking accounts: deposits into validator reward pools make the
+		// rewards multi-denomination (what IBC fee income does on a live chain)
+		accts = append(accts, vh.GenAccount{Addr: a.Addr, Coins: vh.NativeCoins(5000).Add(sdk.NewCoin(vh.SecondDenom, sdkmath.NewInt(5_000_000_000)))})
 	}
 	w.relayer, w.bank, w.deployer = vh.NewAcct(r), vh.NewAcct(r), vh.NewAcct(r)
 	accts = append(accts, vh.GenAccount{Addr: w.relayer.Addr, Coins: vh.NativeCoins(100000)},
@@ -236,9 +238,9 @@ func (w *world) setup() {
 		{"CALL", vh.CALL, -1, -1, false},
 		{"CALLCODE", vh.CALLCODE, -1, -1, false},
 		{"DELEGATECALL", vh.DELEGATECALL, -1, -1, false},
-		{"DELEGATECALL>CALL", vh.DELEGATECALL, 0, -1, false},     // puppet 0's code runs in this contract's context
-		{"CALL>DELEGATECALL", vh.CALL, 2, 2, false},              // calls puppet 2, which delegatecalls the precompile
-		{"CALLCODE>DELEGATECALL", vh.CALLCODE, 2, -1, false},     // puppet 2's code in this contract's context
+		{"DELEGATECALL>CALL", vh.DELEGATECALL, 0, -1, false}, // puppet 0's code runs in this contract's context
+		{"CALL>DELEGATECALL", vh.CALL, 2, 2, false},          // calls puppet 2, which delegatecalls the precompile
+		{"CALLCODE>DELEGATECALL", vh.CALLCODE, 2, -1, false}, // puppet 2's code in this contract's context
 		{"STATICCALL", vh.STATICCALL, -1, -1, true},
 	}
 	n0 := w.c.Nonce(w.deployer.Addr)
